@@ -50,17 +50,19 @@ theorem imageApp_foldl (db : DB) : ∀ (xs : List MM.Term) (acc : NPat),
     imageApp db acc xs = (xs.map (image db)).foldl (fun a p => NPat.app a p) acc := by
   intro xs
   induction xs with
-  | nil => intro acc; rfl
-  | cons x xs ih => intro acc; simp only [imageApp, List.map_cons, List.foldl_cons]; exact ih _
+  | nil => intro acc; simp [imageApp_nil]
+  | cons x xs ih => intro acc; simp only [imageApp_cons, List.map_cons, List.foldl_cons]; exact ih _
 
-/-- the numbering context: `fs` = the variables with a `$f` statement (names), all declared; the model's floats are their numbers -/
+/-- the numbering context: `fs` = the variables with a `$f` statement (names), all declared; the model's floats are their numbers;
+the model database declares no notation (`dbOfMDb` produces none) -/
 structure Numbering (nm : Names) (fs : List String) (db : DB) : Prop where
   declared : ∀ x ∈ fs, x ∈ nm.vars
   floats : db.floats = fs.map nm.vars.idxOf
+  plain : ∀ c ∈ db.ctors, c.body = none
 
 theorem valOf_eq (nm : Names) (fs : List String) (db : DB) (h : Numbering nm fs db) (v : String) (hv : v ∈ nm.vars) :
     valOf fs v = image db (.var (nm.vars.idxOf v)) := by
-  simp only [valOf, image, DB.mvId, h.floats, idxOf_map_idx nm.vars v hv fs h.declared]
+  simp only [valOf, image_var, DB.mvId, h.floats, idxOf_map_idx nm.vars v hv fs h.declared]
   rfl
 
 theorem patOf_image (nm : Names) (fs : List String) (db : DB) (h : Numbering nm fs db) :
@@ -117,7 +119,7 @@ theorem patOf_image (nm : Names) (fs : List String) (db : DB) (h : Numbering nm 
               simp [ha, hb] at ht
               subst ht
               have := tsize_pos a; have := tsize_pos b
-              simp only [patOf, patsOf, if_true, image, ih a A (by omega) ha, ih b B (by omega) hb]
+              simp only [patOf, patsOf, if_true, image_imp, ih a A (by omega) ha, ih b B (by omega) hb]
       · by_cases h2 : s = "\\app"
         · subst h2
           rw [if_neg h1, if_pos rfl] at ht
@@ -134,7 +136,7 @@ theorem patOf_image (nm : Names) (fs : List String) (db : DB) (h : Numbering nm 
                 subst ht
                 have := tsize_pos a; have := tsize_pos b
                 have hne : ("\\app" : String) ≠ "\\imp" := by decide
-                simp only [patOf, patsOf, hne, if_false, if_true, image, ih a A (by omega) ha, ih b B (by omega) hb]
+                simp only [patOf, patsOf, hne, if_false, if_true, image_app, ih a A (by omega) ha, ih b B (by omega) hb]
         · rw [if_neg h1, if_neg h2] at ht
           by_cases h3 : s = "\\exists" ∨ s = "\\mu"
           · rw [if_pos h3] at ht; cases ht
@@ -152,7 +154,7 @@ theorem patOf_image (nm : Names) (fs : List String) (db : DB) (h : Numbering nm 
                 split at hc
                 · exact (Option.some.inj hc).symm
                 · cases hc
-              simp only [patOf, h1, h2, if_false, image, imageApp_foldl, hl args Ts (by omega) hts, hcn]
+              simp only [patOf, h1, h2, if_false, image_con_plain db h.plain, imageApp_foldl, hl args Ts (by omega) hts, hcn]
 
 end ConvTie
 
@@ -373,9 +375,13 @@ def coherentItem (sp : Spec) (st : MStmt) : Bool :=
     | _, _, _ => false
   | none => false
 
-def coherentFloats (sp : Spec) (mdb : MDb) : Bool :=
+def coherentFloats0 (sp : Spec) (mdb : MDb) : Bool :=
   ((floatPairs mdb).all fun p => sp.names.vars.contains p.2 && decide (sp.table.lookup p.1 = some (Lbl.float (sp.names.vars.idxOf p.2)))) &&
   decide (sp.db.floats = ((floatPairs mdb).map (·.2)).map sp.names.vars.idxOf)
+
+/-- the `$f` statements; and the model database declares no notation (`dbOfMDb` never produces one: `Ctor.body = none`) -/
+def coherentFloats (sp : Spec) (mdb : MDb) : Bool :=
+  coherentFloats0 sp mdb && sp.db.ctors.all (·.body.isNone)
 
 def coherentGoal (sp : Spec) (mdb : MDb) : Bool :=
   match lemmaOf mdb with
@@ -511,11 +517,16 @@ open ConvSpec
 
 theorem numbering_of_coherent (sp : Spec) (mdb : MDb) (h : coherentFloats sp mdb = true) :
     Numbering sp.names ((floatPairs mdb).map (·.2)) sp.db := by
-  simp only [coherentFloats, Bool.and_eq_true, List.all_eq_true, decide_eq_true_eq, List.contains_eq_mem] at h
-  refine ⟨?_, h.2⟩
-  intro x hx
-  obtain ⟨p, hp, rfl⟩ := List.mem_map.mp hx
-  exact (h.1 p hp).1
+  simp only [coherentFloats, Bool.and_eq_true] at h
+  obtain ⟨h, hpl⟩ := h
+  simp only [coherentFloats0, Bool.and_eq_true, List.all_eq_true, decide_eq_true_eq, List.contains_eq_mem] at h
+  refine ⟨?_, h.2, ?_⟩
+  · intro x hx
+    obtain ⟨p, hp, rfl⟩ := List.mem_map.mp hx
+    exact (h.1 p hp).1
+  · intro c hc
+    have := List.all_eq_true.mp hpl c hc
+    simpa using this
 
 /-- a `$f` label: the model's `Lbl.float`, the same `MetaVar`, not a pattern constructor -/
 theorem agree_float {σ : String → Nat} {fuel : Nat} {mdb : MDb} {target : String} {t : MTerm} {prf : List String}
@@ -527,8 +538,8 @@ theorem agree_float {σ : String → Nat} {fuel : Nat} {mdb : MDb} {target : Str
     resolve_metavar σ fuel c v = .ok ((XProofTie.ofDB sp.db sp.goal).resolveMetavar (sp.names.vars.idxOf v)) ∧
     is_pattern_constructor σ fuel c l = (XProofTie.ofDB sp.db sp.goal).isPatternConstructor (Lbl.float (sp.names.vars.idxOf v)) := by
   have hnum := numbering_of_coherent sp mdb hco
-  simp only [coherentFloats, Bool.and_eq_true, List.all_eq_true, decide_eq_true_eq, List.contains_eq_mem] at hco
-  obtain ⟨hvV, htab⟩ := hco.1 (l, v) hlv
+  simp only [coherentFloats, coherentFloats0, Bool.and_eq_true, List.all_eq_true, decide_eq_true_eq, List.contains_eq_mem] at hco
+  obtain ⟨hvV, htab⟩ := hco.1.1 (l, v) hlv
   obtain ⟨h1, h2, h3⟩ := q_floating hF hfin hL l v hlv
   have hidx : sp.db.mvId (sp.names.vars.idxOf v) = ((floatPairs mdb).map (·.2)).idxOf v := by
     simp only [DB.mvId, hnum.floats]
